@@ -212,3 +212,20 @@ void h_sse_bss_decode_float_bounded(void) {
   if (count == 47) CQV_CANARY("vector and tail steps taken");
   CQV_CANARY("returns");
 }
+
+/* byte-stream split double encode, bounded in count (0..47), symbolic data */
+void h_sse_bss_encode_double_bounded(void) {
+  int64_t count = nondet_i64();
+  __CPROVER_assume(0 <= count && count <= 47);
+  double *values = malloc((size_t)count * 8);   /* exact size: any over-read is out of bounds */
+  uint8_t out[8 * 47 + 16];                     /* 8*count output bytes, then guard bytes that must not change */
+  __CPROVER_assume(values != NULL);
+  int64_t k = nondet_i64(); int b = nondet_int(); size_t m = nondet_size_t();
+  __CPROVER_assume(0 <= k && k < count && 0 <= b && b < 8 && m >= (size_t)count * 8 && m < sizeof out);
+  uint8_t want = ((const uint8_t *)values)[k * 8 + b], old_m = out[m];
+  carquet_sse_byte_stream_split_encode_double(values, count, out);
+  __CPROVER_assert(out[b * count + k] == want, "stream b, position k holds byte b of value k");
+  __CPROVER_assert(out[m] == old_m, "no byte at or after output + 8*count changes");
+  if (count == 47) CQV_CANARY("pair and tail steps taken");
+  CQV_CANARY("returns");
+}
